@@ -357,7 +357,8 @@ class DFree(WeightingModel):
     """
 
     def supports_block_quality(self):
-        return True
+        # See DFreeScorer: the formula is not monotone
+        return False
 
     def scorer(self, searcher, fieldname, text, qf=1):
         if not searcher.schema[fieldname].scorable:
@@ -379,6 +380,19 @@ class DFreeScorer(WeightLengthScorer):
 
     def _score(self, weight, length):
         return dfree(weight, self.cf, self.qf, length, self.fl)
+
+    # Like PL2, the DFree formula is not monotone in the term weight and the
+    # field length, so _score(max weight, min length) does not bound the
+    # scores of a block or of the whole posting list
+
+    def supports_block_quality(self):
+        return False
+
+    def max_quality(self):
+        return float("inf")
+
+    def block_quality(self, matcher):
+        return float("inf")
 
 
 # PL2 model
